@@ -318,9 +318,13 @@ struct Comment;
 impl Lexer for Comment {
     fn lex(input: Span) -> IResult {
         let start = input.location_offset();
-        // a comment ends with the line or, in the last line, with the text
-        let (input, comment) =
-            delimited(tag("//"), take_till(|c| c == '\n'), alt((tag("\n"), eof)))(input)?;
+        // a comment ends with the line or, in the last line, with the text;
+        // a line ends with `\n`, `\r\n` or a carriage return on its own
+        let (input, comment) = delimited(
+            tag("//"),
+            take_till(|c| c == '\n' || c == '\r'),
+            alt((tag("\r\n"), tag("\n"), tag("\r"), eof)),
+        )(input)?;
         let end = input.location_offset();
         Ok((
             input,
